@@ -32,6 +32,9 @@ const (
 func countLines(r io.Reader) uint64 {
 	var count uint64
 	fileScanner := bufio.NewScanner(r)
+	// same line limit as the reader in GetMessages; the default 64 KiB limit stops
+	// counting at the first long line and makes every later offset repeat
+	fileScanner.Buffer(make([]byte, 0, 64*1024), 1024*1024)
 
 	for fileScanner.Scan() {
 		count++
